@@ -47,7 +47,7 @@ _BASIS_CLASSES = {
 }
 _OTHER_CLASSES = ["sp_shells", "unrestricted", "unrestricted_interleaved", "no_virtuals", "unrestricted_no_virtuals",
                   "fractional_occ", "gto_atom_order", "section_orders", "gto_last", "tags_after_mo", "d_exponents",
-                  "same_element", "upper_names", "no_title", "many_atoms"]
+                  "same_element", "upper_names", "no_title", "many_atoms", "distant_atoms_paren_units"]
 CLASSES = list(_BASIS_CLASSES) + _OTHER_CLASSES
 # Supported by generate() but NOT run by default: the section header "[GTO] (AU)" (as written by Molcas / Dalton and, from
 # memory, shown on the Molden format page).  The specification page could not be fetched when this writer was made
@@ -78,6 +78,12 @@ def build_model(rng, klass, ltypes, tags, mo_kind="restricted", virtuals=True, n
     if natom is None:
         natom = int(rng.integers(1, 4))
     unit_name = "AU" if rng.integers(2) else "Angs"
+    if klass == "distant_atoms_paren_units":
+        # the unit keyword in parentheses, as several programs write it ("[Atoms] (AU)" occurs in the corpus); two atoms so far
+        # apart, with functions so compact, that no orbital norm depends on the distance: a misread unit cannot be noticed by
+        # a normalisation test, only by comparing the coordinates
+        natom = 2
+        unit_name = "(AU)" if rng.integers(3) == 0 else "(Angs)"
     if klass == "same_element":
         natom = 3
         atnums = np.array([8, 1, 1])[rng.permutation(3)]
@@ -88,12 +94,20 @@ def build_model(rng, klass, ltypes, tags, mo_kind="restricted", virtuals=True, n
         atnums = rng.integers(1, 37, size=natom)
     for _ in range(60):
         coords = wm.random_coords(rng, natom)
-        unit = 1.0 if unit_name == "AU" else units.angstrom
+        if klass == "distant_atoms_paren_units":
+            direction = rng.normal(size=3)
+            coords = np.array([[0.0, 0.0, 0.0], 16.0 * direction / np.linalg.norm(direction)]) + rng.normal(scale=0.3, size=(2, 3))
+        unit = 1.0 if unit_name.strip("()") == "AU" else units.angstrom
         file_coords = np.round(coords / unit, 8)
         coords = file_coords * unit
         shells = wm.random_basis(rng, natom, ltypes, nbasis_max, max_prim=max_prim)
         if klass == "sp_shells":
             shells = _add_sp_shells(rng, shells, natom)
+        if klass == "distant_atoms_paren_units":
+            for sh in shells:  # compact functions only (exponents >= 0.8), contraction renormalised
+                ex = np.maximum(sh["exponents"], 0.8) * (1.0 + 0.35 * np.arange(len(sh["exponents"]))[::-1])
+                sh["exponents"] = ex
+                sh["coeffs"] = sh["coeffs"] / np.sqrt(wm.contraction_norm2(sh["l"], ex, sh["coeffs"]))
         atom_order = list(range(natom))
         if klass == "gto_atom_order" and natom > 1:
             while atom_order == list(range(natom)):
@@ -235,7 +249,7 @@ def write(model):
 
 def expected(model):
     wfn = model["wfn"]
-    unit = 1.0 if model["unit_name"] == "AU" else units.angstrom
+    unit = 1.0 if model["unit_name"].strip("()") == "AU" else units.angstrom
     norb = np.asarray(wfn["mo_coeffs"]).shape[1]
     exp = Expect({
         ("atnums",): Exact(np.asarray(model["atnums"], dtype=int)),
